@@ -9,7 +9,7 @@ def run(ctx):
         "without --by-chrom / --with-sequence / gz input and GFA.write_gfa round-trips the file twice; TLC (Check_Chain.V07) decides "
         "segments, sequences, tags, canonical links with overlaps and tags, layout, CSV; non-trivial = >1 chromosome or >3 elements"
     )
-    cfgs = ["BubbleChain_q.cfg", "BubbleChain_q2.cfg", "BubbleChain_long.cfg"] if not ctx.thorough else ["BubbleChain_t.cfg", "BubbleChain_q2.cfg", "BubbleChain_t3.cfg", "BubbleChain_long.cfg"]
+    cfgs = ["BubbleChain_q.cfg", "BubbleChain_q2.cfg", "BubbleChain_long.cfg", "BubbleChain_w.cfg"] if not ctx.thorough else ["BubbleChain_t.cfg", "BubbleChain_q2.cfg", "BubbleChain_t3.cfg", "BubbleChain_long.cfg", "BubbleChain_w.cfg"]
     jobs = sessions(ctx, cfgs, "C07", lambda k: {"allcfg": ctx.thorough})
     finish(ctx, jobs, "C07")
     ctx.exhaustive = True
